@@ -226,6 +226,10 @@ func (ss *SpecSet) parseFile(pkg, file, text string) error {
 			ss.Types[key] = curT
 			curF, curL = nil, nil
 		case "pure":
+			if rest == "" && curF != nil {
+				curF.Pure = true // bare clause inside a func block
+				break
+			}
 			pf, err := parsePure(rest)
 			if err != nil {
 				return errf("%v", err)
